@@ -58,6 +58,8 @@ type world struct {
 	shape         string
 	forked        bool
 	mergedOverlap bool
+	reuseOpts     bool
+	optsCache     map[string]*ipfslog.LogOptions
 }
 
 type coreStats struct {
@@ -162,6 +164,17 @@ func (w *world) observe(i int) {
 func (w *world) newReplica(id, writer, sk string, deny []string) int {
 	ident := w.ids.Identity(writer)
 	opts := &ipfslog.LogOptions{ID: id, SortFn: sortFnOf(sk)}
+	if len(deny) == 0 && w.reuseOpts {
+		// replicas created from one reused options value (NewLog writes its defaults back into it)
+		if w.optsCache == nil {
+			w.optsCache = map[string]*ipfslog.LogOptions{}
+		}
+		if o, ok := w.optsCache[id+"/"+sk]; ok {
+			opts = o
+		} else {
+			w.optsCache[id+"/"+sk] = opts
+		}
+	}
 	var dl []string
 	if len(deny) > 0 {
 		ac := &denyAC{denied: map[string]bool{}}
@@ -393,6 +406,17 @@ func (w *world) doLoad(src int, kind string, n int, writer string, conc int) {
 		case "ent":
 			nl, err = ipfslog.NewFromEntry(w.ctx, w.api, ident, s.log.Heads().Slice(), &ipfslog.LogOptions{SortFn: sortFnOf(s.sort)},
 				&entry.FetchOptions{Length: lp, Concurrency: conc})
+		// in-memory copies through the constructor: the new replica must own its state, whatever the
+		// caller handed in (the live entry map, an accessor result, a freshly built map)
+		case "cpE":
+			nl, err = ipfslog.NewLog(w.api, ident, &ipfslog.LogOptions{ID: s.id, SortFn: sortFnOf(s.sort),
+				Entries: s.log.Entries, Heads: s.log.Heads().Slice()})
+		case "cpG":
+			nl, err = ipfslog.NewLog(w.api, ident, &ipfslog.LogOptions{ID: s.id, SortFn: sortFnOf(s.sort),
+				Entries: s.log.GetEntries()})
+		case "cpV":
+			nl, err = ipfslog.NewLog(w.api, ident, &ipfslog.LogOptions{ID: s.id, SortFn: sortFnOf(s.sort),
+				Entries: entry.NewOrderedMapFromEntries(s.log.Values().Slice()), Heads: s.log.Heads().Slice()})
 		}
 	}()
 	if res == "ok" && err != nil {
@@ -583,6 +607,7 @@ func runCore(seed int64, nHist, nOps int, out *bufio.Writer, thorough bool) *cor
 		if acl {
 			stats.AclHists++
 		}
+		w.reuseOpts = r.Intn(3) == 0
 		fmt.Fprintf(out, "H %d %d shared=%v bounded=%v sort=%s acl=%v\n", h, hs, shared, bounded, sk, acl)
 		for i := 0; i < nRep; i++ {
 			wr := fmt.Sprintf("w%d", i)
@@ -659,9 +684,9 @@ func runCore(seed int64, nHist, nOps int, out *bufio.Writer, thorough bool) *cor
 				w.doIter(i)
 				stats.OpHist["iter"]++
 			case c < 90 && len(w.reps) < 9:
-				kind := []string{"mh", "eh", "json", "ent"}[r.Intn(4)]
+				kind := []string{"mh", "eh", "json", "ent", "cpE", "cpG", "cpV"}[r.Intn(7)]
 				nn := -1
-				if bounded && r.Intn(2) == 0 && !shared {
+				if bounded && r.Intn(2) == 0 && !shared && kind[0] != 'c' {
 					nn = r.Intn(w.reps[i].log.Len() + 4)
 				}
 				conc := []int{0, 1, 2, 4, 32}[r.Intn(5)]
